@@ -411,7 +411,7 @@ func (e *Exec) execInstr(fr *Frame, b *ssa.BasicBlock, ins ssa.Instruction, st *
 				env.bound["result"] = vals[0]
 			}
 			for k, en := range c.Ensures {
-				e.obligeNamed(st, clauseLabel(en, "ensures", k), x.Pos(), scal(env.eval(en.Expr)))
+				e.obligeNamed(st, clauseLabel(en, "ensures", k), x.Pos(), scal(env.evalGoal(en.Expr)))
 			}
 		}
 		fr.returns = append(fr.returns, retPoint{reach: st.reach, vals: vals, st: st.clone()})
